@@ -241,14 +241,16 @@ void explore_lengths(Ctx &ctx) {
             if (seal && !ctx.thorough() && ml > 64 && ml % 9 != 0) continue;       // big-integer X25519 model per case
             if (!ctx.mine(idx++)) continue;
             auto masks = masks_for(cons, ctx.thorough());
-            size_t adlen = cons <= AEGIS256 ? (adsel < 8 ? ADS[adsel] : (size_t) (seed % 300)) : 0;
+            size_t adlen = cons <= AEGIS256 ? (adsel < 8 ? ADS[adsel] : (size_t) (seed % (adsel == 8 ? 300 : 2300))) : 0;
             for (size_t mi = 0; mi < masks.size(); mi++) {
                 if (seal && mi > 0 && ml % 4 != 0) continue;
                 go(ctx, Case{ cons, ml, adlen, seed, (int) (ml % 11 == 0 ? 1 + ml % 2 : 0), masks[mi] }, mi == 0);
             }
         }
-    // every associated-data length 0..320 with mlen in {0, 1, random}
-    for (size_t al = 0; al <= 320; al++)
+    // every associated-data length 0..320 (thorough: 0..2200) plus 260 sampled lengths up to 2200, with mlen in {0, 1, random}
+    std::vector<size_t> als; for (size_t l = 0; l <= (ctx.thorough() ? 2200u : 320u); l++) als.push_back(l);
+    if (!ctx.thorough()) { for (size_t i = 0; i < 260; i++) als.push_back(321 + (i * 5711) % 1880); for (size_t b : { 447u, 448u, 449u, 671u, 672u, 673u, 895u, 896u, 897u, 1023u, 1024u, 1025u, 2047u, 2048u, 2049u }) als.push_back(b); }
+    for (size_t al : als)
         for (int cons = 0; cons <= AEGIS256; cons++) {
             uint64_t seed = r.next();
             if (!ctx.mine(idx++)) continue;
